@@ -27,18 +27,19 @@ ASSUMPTIONS = ["the layout closes every rule list: REQUIRE for every product of 
 HARMLESS = {None, "rewrite", "excluded"}
 
 
-def one_case(rng, res, check_c11=True):
+def one_case(rng, res, check_c11=True, tamper="draw", case_no=None):
     root = tempfile.mkdtemp(prefix="verif-c04-")
     try:
         n = rng.randrange(1, 5)
-        tamper = rng.choice(chainrun.TAMPERS)
+        if tamper == "draw":
+            tamper = rng.choice(chainrun.TAMPERS)
         at = rng.randrange(1, n + 1)       # between step at-1 and step at; at = n: the final product
         # material / product lists naming the top-level entries one by one (with a look-alike pair among them): in honest
         # histories, and with tampers between two steps (the final inspection records the whole tree and, with such lists,
         # has to allow what the steps did not record: a change of the final product alone would not be evident)
         harmless_only = set(chainrun.TAMPERS) <= {None, "rewrite", "excluded"}
         opts = chainrun.gen_opts(rng, allow_paths=harmless_only or tamper in HARMLESS or tamper in ("link_edit", "link_swap", "link_remove") or
-                                 (tamper in ("edit", "add", "delete", "rename") and at < n))
+                                 (tamper in ("edit", "add", "delete", "rename") and at < n), case_no=case_no)
         try:
             h = chainrun.Honest(rng, root).carry_out(n, tamper, at, opts)
         except (OSError, ValueError, KeyError, AttributeError, TypeError) as e:
@@ -226,8 +227,11 @@ def judge_links(h, res, desc):
 def shard(seed, idx, n, tier):
     res = core.Result()
     rng = core.rng_for(seed, "c04", idx)
-    for _ in range(n):
-        one_case(rng, res)
+    # every kind of change occurs in every run (cycled through, not drawn), the rest of each history is random
+    kinds = list(dict.fromkeys(chainrun.TAMPERS))
+    for j in range(n):
+        c_ = idx * n + j
+        one_case(rng, res, tamper=kinds[(c_ // 2) % len(kinds)] if c_ % 2 == 0 else "draw", case_no=c_)
     return res
 
 
